@@ -270,10 +270,10 @@ func nativeReplayMode(paths []string, harnesses []string, race bool) (map[string
 	var all strings.Builder
 	remaining := append([]string{}, paths...)
 	for len(remaining) > 0 {
-		batch := remaining
-		if race {
-			batch = remaining[:1] // race reports are de-duplicated per process: one vector per run
-		}
+		// one vector per process: the executor starts every path from the package's initial
+		// state, so a vector must not see globals another one left behind (and race reports
+		// are de-duplicated per process)
+		batch := remaining[:1]
 		cmd := exec.Command(bin, "-test.run", "^TestVerifReplay$", "-test.v", "-test.timeout", "600s")
 		cmd.Dir = repoDir
 		cmd.Env = append(env, "VERIF_REPLAY="+strings.Join(batch, ":"))
